@@ -22,7 +22,7 @@ func init() {
 				"(window) on every path to the re-pricing call in BeginBlock the block height satisfies height mod period == 1 and either no price was ever recorded or the block's header time has 12 ≤ hour ≤ 14 and header time − previous update > 3 h (constants evaluated), all times being req.Header.Time (C08.source separately forbids the wall clock); " +
 				"(round) the whole-percent price change that is compared with −10 is computed with big.Int.Div (rounds down), not Quo (truncates); (mint) EndBlock advances the emission counter by App().Reward()'s per-block value, credits the positive difference between that value and the validators' reward to the zero address (the withheld part is burned), includes the difference in `reward`, and reports `reward` as the base-coin volume minted.",
 			Assumptions: stdAssumptions,
-			Rules:       []string{"C28.cap", "C28.window", "C28.mint", "C28.round", "C28.store"},
+			Rules:       []string{"C28.cap", "C28.window", "C28.mint", "C28.round", "C28.store", "C28.fresh"},
 		},
 		Run: runC28,
 	})
@@ -49,6 +49,7 @@ func capFact(facts []core.Fact, want bool) bool {
 
 func runC28(c *core.Ctx) {
 	defer checkRewardStore(c, "C28.store")
+	defer checkEmissionFresh(c, "C28.fresh")
 	// ---- the constant
 	if p := c.PkgBy["coreV2/rewards"]; p != nil {
 		k, ok := p.Types.Scope().Lookup("TotalEmission").(*types.Const)
@@ -544,4 +545,68 @@ func checkRewardStore(c *core.Ctx, rule string) {
 		c.Check(zeroTested, rule, fmt.Sprintf("App.SetReward/skip#%d", n), r.Pos(), "the store is skipped only for a zero reward (the pair (0, 0) repeated after the cap)",
 			"SetReward can return without storing although the reward handed in is not zero: a change of the value the shortcut does not compare (the validators' share) is dropped, and the blocks until the next price change burn what should have been paid")
 	}
+}
+
+// checkEmissionFresh — the emission counter is advanced several times in one EndBlock (the one-off
+// correction, the extra reward of locked stakes, the block's reward). Each SetEmission(f(e)) must
+// compute from an Emission() read that no other SetEmission can follow before the write: a value
+// read earlier (for the cap test at the top of EndBlock) silently discards what was added in
+// between, so the counter under-counts what was minted and the cap is reached too late.
+func checkEmissionFresh(c *core.Ctx, rule string) {
+	n := 0
+	for _, rootName := range []string{"EndBlock", "BeginBlock", "InitChain"} {
+		root := c.Fn("(*coreV2/minter.Blockchain)." + rootName)
+		if root == nil {
+			continue
+		}
+		group := append([]*ssa.Function{root}, c.Helpers(root)...)
+		setsIn := map[*ssa.Function]bool{}
+		for _, g := range group {
+			for _, s := range core.Sites(g) {
+				if s.Callee == "(*coreV2/appdb.AppDB).SetEmission" {
+					setsIn[g] = true
+				}
+			}
+		}
+		for _, g := range group {
+			// instructions of g after which the counter may have changed
+			var writes []ssa.Instruction
+			for _, s := range core.Sites(g) {
+				if s.Callee == "(*coreV2/appdb.AppDB).SetEmission" {
+					writes = append(writes, s.Instr)
+				} else if h := s.Common.StaticCallee(); h != nil && h != g && setsIn[h] {
+					writes = append(writes, s.Instr)
+				}
+			}
+			k := 0
+			for _, s := range core.Sites(g) {
+				if s.Callee != "(*coreV2/appdb.AppDB).SetEmission" {
+					continue
+				}
+				var reads []*ssa.Call
+				core.DependsOn(s.Arg(0), func(v ssa.Value) bool {
+					if call, ok := v.(*ssa.Call); ok && core.CalleeName(&call.Call) == "(*coreV2/appdb.AppDB).Emission" {
+						reads = append(reads, call)
+					}
+					return false
+				})
+				if len(reads) == 0 {
+					continue // an absolute value (genesis)
+				}
+				n++
+				k++
+				stale := ""
+				for _, r := range reads {
+					for _, w := range writes {
+						if w != s.Instr && instrReaches(r, w) && instrReaches(w, s.Instr) && !core.InCycle(s.Block()) {
+							stale = c.PosStr(w.Pos())
+						}
+					}
+				}
+				c.Check(stale == "", rule, fmt.Sprintf("%s/SetEmission#%d", g.Name(), k), s.Pos(), "computed from a read of the counter that no other write can follow",
+					"the emission counter is set from a value read before the write at "+stale+": what that write added is discarded — the counter no longer equals what was minted, and the emission cap is reached too late")
+			}
+		}
+	}
+	c.Floor(rule, n, 2, "read-modify-write updates of the emission counter")
 }
